@@ -12,6 +12,7 @@ CONSTANTS
   Horizon = 0
   AllowFaults = TRUE
   AllowCancel = FALSE
+  AllowStall = FALSE
   AbstractTime = TRUE
   LeakSearchIdOnDone = FALSE
   AbandonKeepsTargetId = FALSE
